@@ -25,7 +25,7 @@ RULE = ("pairs: (a) (x, deepcopy(x)) for random nested values x (dict/list/tuple
         "edits per value (float +-0.5, int +-1, int<->float, bool<->int, str case/blank/newline, str<->bytes, list<->tuple, set<->frozenset, None<->False), "
         "(c) random independent pairs and all-atom list pairs related by insert/delete/replace/move/dup/rotate edits under 0-2 common levels, (d) a seeded sample (450 / 9000) of the ordered pairs of an exhaustive small universe (599 values), (e) values containing date/datetime/time/timedelta "
         "and numpy int/float arrays (direct oracle only); configurations: view {text,tree} x verbose_level {1,2} x threshold_to_diff_deeper "
-        "{0,0.33,0.9,1,1.0} x zip_ordered_iterables x cache_size {0,1,5000} x max_passes {0,1,10**7}: a random sample of 6 of the 216 per pair, the "
+        "{0,0.33,0.9,1,1.0} x zip_ordered_iterables x cache_size {0,1,5000} x max_passes {0,1,10**7}: a random sample of 6 of the 360 per pair, the "
         "full grid on every 60th pair. Non-trivial = the two values are not Python-equal or the diff is non-empty; distinct by (t1, t2, cfg).")
 TRUSTED = ["difflib.SequenceMatcher opcodes are an oracle: copy clause proved for every oracle that tiles the lists with balanced 'equal' blocks, soundness "
            "for every valid oracle ('equal' blocks pointwise ==); the correspondence feeds the model the opcodes difflib returns, and the Coq predicate "
